@@ -44,6 +44,8 @@ type c13Case struct {
 	Cap  int      `json:"cap"` // channel capacity (0 = NewUdpTaskPool, i.e. UdpTaskQueueLength)
 	Keys []int    `json:"keys"`
 	Cmds []c13Cmd `json:"cmds"`
+	// PopYield: also park convoys at convoy.pop_between (between the channel poll and the overflow pop)
+	PopYield bool `json:"popyield"`
 }
 
 type c13CmdRes struct {
@@ -94,6 +96,7 @@ type c13Sched struct {
 	newGet   *int
 	newQueue bool
 	abort    bool
+	popYield bool
 }
 
 var c13S *c13Sched
@@ -208,6 +211,10 @@ func (s *c13Sched) hook(point string) {
 		s.arrive(0, 0, 4)
 	case "convoy.before_recycle":
 		s.arrive(0, 0, 5)
+	case "convoy.pop_between":
+		if s.popYield {
+			s.arrive(0, 0, 7)
+		}
 	}
 }
 
@@ -467,7 +474,7 @@ func c13RunCase(c c13Case) (res c13Res) {
 	}
 	s := &c13Sched{p: p, keys: c.Keys, parked: map[int64]*c13Entry{}, gidProd: map[int64]int{},
 		prodGid: make([]int64, len(c.Keys)), prodDone: make([]bool, len(c.Keys)), started: make([]bool, len(c.Keys)),
-		gidConv: map[int64]int{}}
+		gidConv: map[int64]int{}, popYield: c.PopYield}
 	c13S = s
 	VerifYield = s.hook
 	defer func() {
